@@ -24,6 +24,16 @@ def hdefs(tier):
         hs.append(HDef("c22_pos_" + n, "pos_to_offset",
                        "#[kani::proof] #[kani::unwind(%d)] pub fn c22_pos_%s() { pos_to_offset::<%d, %d>(%s) }" % (uw, n, L, K, arr),
                        "any (line, character) in usize x usize: missing line -> None; else offset in document, on a char boundary, on that line, exact inside the line, clamped to the line end past it", b, ctx, FUNCS))
+    # the clamp clause with CR / CRLF terminators: shapes that can hold a terminator next to a multi-byte character
+    crs = [s for s in (S.shapes(3, widths=(1, 2, 4)) if tier == "quick" else S.shapes(3, widths=(1, 2, 3, 4))) if any(w == 1 for w in s) and any(w > 1 for w in s)]
+    for s in crs:
+        L, K, n, arr = S.byte_len(s), len(s), S.name(s), S.rust_array(s)
+        uw = L + 3
+        ctx = {"has_astral": 4 in s, "all_ascii": False}
+        b = {"shape": list(s), "bytes": L, "unwind": uw, "symbolic": "class of every 1-byte char ('\\n' | '\\r' | other), line, col"}
+        hs.append(HDef("c22_cr_" + n, "clamp_cr",
+                       "#[kani::proof] #[kani::unwind(%d)] pub fn c22_cr_%s() { pos_to_offset_cr::<%d, %d>(%s) }" % (uw, n, L, K, arr),
+                       "with LF, CRLF and lone-CR terminators: an existing line converts to an offset within that line's content; a character at or past the end clamps to the end of the content", b, ctx, FUNCS))
     for s in rt:
         L, K, n, arr = S.byte_len(s), len(s), S.name(s), S.rust_array(s)
         uw = L + 3
@@ -47,6 +57,7 @@ def run(out):
                   "shapes": len({tuple(h.bounds["shape"]) for h in hs})}
     out.outside = ["texts longer than the bound", "offsets >= 4 GiB (u32 cast)",
                    "the boundary strictly inside a CRLF pair (not representable as a position if CRLF is one terminator)",
+                   "the clamp clause on all-ASCII texts with CR terminators (C23's eol_clamp harnesses)",
                    "character columns in lines whose prefix holds an astral character are judged by C23, not here"]
     out.assumptions = [
         "data independence: LineIndex inspects text only via ==b'\\n', >=0x80, len_utf8 and chars().count(), so one representative per UTF-8 width is class-complete",
